@@ -108,6 +108,13 @@ TEMPLATES = [
     ("(t(1, c) or t(2, c)) and not t(3, c)", lambda a, b, c: [1, 3] if c else [1, 2]),
     ("t(1, zero) in [t(2), t(3, zero)]", lambda a, b, c: [1, 2, 3]),
     ("-t(1, a) ** t(2, one)", lambda a, b, c: [1, 2]),
+    # syntactically identical subexpressions are still evaluated each time they occur
+    ("t(1, c) if t(1, c) else t(2, a)", lambda a, b, c: [1, 1] if c else [1, 2]),
+    ("t(1, c) or t(1, c)", lambda a, b, c: [1] if c else [1, 1]),
+    ("t(1, c) and t(1, c)", lambda a, b, c: [1, 1] if c else [1]),
+    ("[t(1, a), t(1, a)] | len", lambda a, b, c: [1, 1]),
+    ("t(1, a) + t(1, a) == t(1, a) * one", lambda a, b, c: [1, 1, 1]),
+    ("{t(1, 'k'): t(1, 'k')}", lambda a, b, c: [1, 1]),
 ]
 if isinstance(hlib.PARAM, dict) and "t" in hlib.PARAM:
     prewarm(TEMPLATES[hlib.PARAM["t"]][0])
